@@ -380,14 +380,6 @@ def main(tier):
         import collections
         log("C03_ONLY=xskip: violations by kind: %s" % dict(collections.Counter(v["kind"] for v in run.violations)))
         log("C03_ONLY=xskip: by case family: %s" % dict(collections.Counter(str(v.get("case", "")).split("|")[-1].split(":")[0] for v in run.violations)))
-        for fam in ("family", ""):
-            for v in [v for v in run.violations if str(v.get("case", "")).split("|")[-1].split(":")[0] == fam][:2]:
-                log("EXAMPLE %s" % {k: str(x)[:600] for k, x in v.items() if k != "module"})
-                if "python" in v:
-                    a, b = bytes.fromhex(v["c"][3:]).decode(), bytes.fromhex(v["python"][3:]).decode()
-                    import re
-                    ta, tb = re.findall(r"<[^>]*>[^<]*", a), re.findall(r"<[^>]*>[^<]*", b)
-                    log("LEN %d %d; only in C: %s; only in python: %s" % (len(a), len(b), [x for x in ta if x not in tb][:5], [x for x in tb if x not in ta][:5]))
         return run.finish("proof", (nthm, ndis))
     if not ok or ndis != nthm or gate:
         run.violation("proof:Properties_C03", {"what": "Coq development does not build or an obligation is open",
